@@ -207,6 +207,73 @@ def edited_after_export_programs():
             yield (f"edited-after-export/{name}/d{depth}", b)
 
 
+def repaired_parent_programs():
+    """a parent and one of its children BOTH carry a fault that only the post-flattening checks find; the first export
+    reports the child's; the designer replaces that child (the parent is neither failed nor frozen) and exports again:
+    the parent's own fault is reported then, or the package is well-formed - never an unchecked parent exported"""
+    import hdl21 as h
+
+    def mk(fault, depth, repair):
+        def b():
+            def faulty(m):
+                m.a2 = h.Signal(width=2)
+                if fault == "array-open-terminal":
+                    m.add(2 * h.R(r=1)(p=m.a), name="rr")                 # `n` of each element left open
+                elif fault == "array-width":
+                    m.w3 = h.Signal(width=3)
+                    m.add(2 * h.R(r=1)(p=m.w3, n=m.a), name="rr")
+                else:
+                    B = h.Bundle(name="RpB")
+                    B.add(h.Signal(name="x"))
+                    B.add(h.Signal(name="y", width=2))
+                    C = h.Module(name="RpBC")
+                    C.q = B(port=True)
+                    C.r = h.R(r=3)(p=C.q.x, n=C.q.y[0])
+                    m.add(C(q=h.AnonymousBundle(x=m.a, y=m.a)), name="cb")       # y is two bits wide
+            leaf = h.Module(name="RpLeaf")
+            leaf.a = h.Port()
+            faulty(leaf)
+            good = h.Module(name="RpGood")
+            good.a = h.Port()
+            good.r = h.R(r=9)(p=good.a, n=good.a)
+            mid = h.Module(name="RpMid")
+            mid.a = h.Signal()
+            mid.leaf = leaf(a=mid.a)
+            faulty(mid)
+            top = mid
+            for k in range(depth):
+                up = h.Module(name=f"RpUp{k}")
+                up.inner = top()
+                top = up
+            try:
+                h.to_proto(top)
+            except Exception:
+                pass
+            else:
+                raise AssertionError("the faulty design was exported")
+            if repair == "setattr":
+                mid.leaf = good(a=mid.a)
+            else:
+                mid.add(good(a=mid.a), name="leaf")
+            return top
+        return b
+    for fault in ("array-open-terminal", "array-width", "anon-width"):
+        for depth in (0, 1):
+            for repair in ("setattr", "add"):
+                yield (f"repaired-parent/{fault}/depth{depth}/{repair}", mk(fault, depth, repair))
+
+
+def attribute_like_programs():
+    """signals and ports called like attributes of the Module object itself (C11's design): the package must be taken by
+    from_proto and the netlisters like any other"""
+    from props import c11
+    for desc, b in c11.param_programs():
+        if "attribute-like" in desc:
+            yield ("attr-names/" + desc.split("/", 1)[1], b)
+        elif "dotted" in desc:
+            yield ("dotted-names/" + desc.split("/", 1)[1], b)
+
+
 def extmodule_edit_programs():
     """an ExternalModule whose public pin list is changed after a first use (append / remove / replace an entry / a new
     list), and a second design wired for the OLD or for the NEW list: refused, or exported well-formed"""
@@ -394,11 +461,11 @@ def run(ctx):
     ctx.verify(c_export.names_engine(), c_export.VERIFY_NAMES)
     from props.c01 import concat_designs
     cases = itertools.chain(design_family(ctx.tier, ctx.seed), concat_designs(), extra_programs(), compiled_programs(), edited_programs(), edited_after_export_programs(), faulted_programs(),
-                            adversarial_programs(), param_programs(), extmodule_edit_programs())
+                            adversarial_programs(), param_programs(), extmodule_edit_programs(), repaired_parent_programs(), attribute_like_programs())
     ctx.run_bounded("wf_package(to_proto(design))", cases, check_pkg,
                     rule=RULE + "; every concatenation of two or three pieces of one bus (C01's family, 285 designs); sample-PDK-compiled and walked designs holding two- and three-terminal passives of equal parameters (24); plus Series/MosStack/Wrapper over small parameter ranges; modules whose names were "
                          "re-used for another kind (16 pairs); modules edited after a first export (7 edits x 2 depths); the single-fault designs of C02 (a package returned for "
-                         "one of them must still be well-formed); the adversarially named designs of C05; instances with unset (None) parameters in param-classes, parameter dictionaries, ASAP7-compiled devices (15); generated modules whose parameter values are written with dots (8); refused moves of held objects on exported modules (10); external modules whose pin list changes after a first use, second design wired for the old or the new list (40)",
+                         "one of them must still be well-formed); the adversarially named designs of C05; instances with unset (None) parameters in param-classes, parameter dictionaries, ASAP7-compiled devices (15); generated modules whose parameter values are written with dots (8); refused moves of held objects on exported modules (10); external modules whose pin list changes after a first use, second design wired for the old or the new list (40); parents repaired after a child's fault was reported, carrying a fault of their own (12)",
                     bound="depth<=3, widths<=4 (8 thorough)", key_of=lambda c: c[0],
                     nontrivial=lambda c: nontrivial(c[0]))
     return INFO
@@ -409,7 +476,7 @@ def replay(payload):
     if want:
         for tier in ("quick", "thorough"):
             for desc, b in itertools.chain(design_family(tier, 0), extra_programs(), edited_programs(), edited_after_export_programs(), faulted_programs(),
-                            adversarial_programs(), param_programs(), extmodule_edit_programs()):
+                            adversarial_programs(), param_programs(), extmodule_edit_programs(), repaired_parent_programs(), attribute_like_programs()):
                 if desc == want:
                     r = check_pkg((desc, b))
                     print("replay:", r)
